@@ -98,6 +98,17 @@ CHECKS = {
              "of the stage order is used, in lower/upper/mixed case and as enum members, and non-prefix lists must raise a DDS "
              "error without running anything.",
         design_ref="DESIGN.md 5 C15"),
+    "C18": dict(
+        engine="tlc-design+tlc-generate",
+        technique="TLA+ spec DdsEval: GraphOf (nodes, solid / dashed edges, allowed dotted edges) and invariant GraphAcyclic checked "
+                  "by TLC; generated histories replayed with and without dds_export_graph, the exported dot file parsed back "
+                  "and compared with GraphOf",
+        text="The spec defines the graph of an evaluation from the call tree (kept heads reached without crossing a kept function; "
+             "loads of the kept function and of the plain helpers below it; dotted only from earlier siblings to run-time-"
+             "argument keeps) and TLC checks it is acyclic for every shape. Each generated history is replayed twice, with and "
+             "without graph export: results and sync_paths signatures must be equal, the export must succeed, and the parsed "
+             "dot file must have exactly the spec's nodes, solid and dashed edges, any other edge being an allowed dotted one.",
+        design_ref="DESIGN.md 5 C18"),
     "C08": dict(
         engine="tlc-design+tlc-generate+tlc-trace",
         technique="TLA+ spec StoreModel (dictionary store with path identity = segment sequence) model-checked by TLC over its "
